@@ -33,6 +33,11 @@ impl StreamBuffer {
         }
     }
 
+    #[cfg(cfb_verif)]
+    pub(crate) fn verif_parts(&self) -> (usize, usize, usize, usize) {
+        (self.pos, self.cap, self.data.len(), self.max_size)
+    }
+
     pub(crate) fn cursor(&self) -> usize {
         self.pos
     }
